@@ -110,3 +110,41 @@ class SubgridIndependence(Lemma):
             (self.name + ": fraction", [], loc - z3.ToReal(z3.ToInt(loc)) == glob - z3.ToReal(z3.ToInt(glob))),
             (self.name + ": nearest cell", [x - z3.ToReal(i0) >= 0], z3.ToInt(x - z3.ToReal(i0) + z3.RealVal("1/2")) + i0 == z3.ToInt(x + z3.RealVal("1/2"))),
         ]
+
+
+class MaskedTerm(Lemma):
+    """m in {0,1} and (m == 1 => f == f2)  =>  (m*w)*f == (m*w)*f2 (a masked node's value does not matter)."""
+
+    name = "masked term lemma"
+    properties = ("C16",)
+
+    def formula(self):
+        from .sample import masked_term_inst
+
+        m, w, f, f2 = z3.Reals("m w f f2")
+        return [(self.name, [], masked_term_inst(m, w, f, f2))]
+
+
+class MaskedIgnored(Lemma):
+    """In the specified masked sample (weights m_c*w_c renormalised by their sum) the values of masked nodes do not
+    occur: two fields that agree on the unmasked corners give the same numerator; all four masked => weight sum 0
+    (so the result is undef_value)."""
+
+    name = "masked nodes are ignored by the specified 2-D sample"
+    properties = ("C16",)
+
+    def formula(self):
+        m = [z3.Real(f"m{k}") for k in range(4)]
+        w = [z3.Real(f"w{k}") for k in range(4)]
+        f = [z3.Real(f"f{k}") for k in range(4)]
+        g = [z3.Real(f"g{k}") for k in range(4)]
+        hyps = [z3.Or(mk == 0, mk == 1) for mk in m]
+        agree = [z3.Implies(m[k] == 1, f[k] == g[k]) for k in range(4)]
+        num_f = sum(((m[k] * w[k]) * f[k] for k in range(4)), z3.RealVal(0))
+        num_g = sum(((m[k] * w[k]) * g[k] for k in range(4)), z3.RealVal(0))
+        sw = sum((m[k] * w[k] for k in range(4)), z3.RealVal(0))
+        return [
+            (self.name + ": numerators agree", hyps + agree, num_f == num_g),
+            (self.name + ": all masked => zero weight sum", hyps + [mk == 0 for mk in m], sw == 0),
+            (self.name + ": non-negative weights, one unmasked corner with positive weight => positive weight sum", hyps + [wk >= 0 for wk in w] + [m[0] == 1, w[0] > 0], sw > 0),
+        ]
